@@ -5,6 +5,7 @@ import (
 	"crypto/ecdsa"
 	"encoding/binary"
 	"encoding/hex"
+	"fmt"
 	"math/big"
 	"math/rand"
 	"testing"
@@ -489,5 +490,45 @@ func TestRegressionForkBelowStoredChain(t *testing.T) {
 	})
 	if err == nil {
 		t.Fatalf("a fork starting below the stored chain was accepted")
+	}
+}
+
+// Failure found by TestRanges (shape certified-hostile-tip; hint of a seeding agent): fastSync.applyDeferredBlocks
+// rebuilds the transaction bloom filter of a header from TxBloom in 8-byte words without looking at its length; 1-7
+// bytes give a filter of zero bits, and testing it (testBloom -> SerializableBF.Has -> bloom.Test: location % m)
+// divides by zero on the downloader goroutine. The header has to come with a certificate of the committee of its
+// height over exactly this header (fast sync checks header + certificate only, never the body), i.e. it takes a
+// colluding quorum (or the god key of a network without online validators) - not a single peer.
+func TestRegressionFastSyncShortBloom(t *testing.T) {
+	w, a, b := fixedWorld(t, 3)
+	for _, n := range []int{1, 7} {
+		blk := reencode(t, a.Propose().Block)
+		blk.Header.ProposedHeader.TxBloom = bytes.Repeat([]byte{0xff}, n)
+		blk = reencode(t, blk)
+		cert := w.MakeCert(a, blk, sim.CertValid)
+		if cert.Empty() {
+			t.Fatalf("setup: no certificate")
+		}
+		r := &protocol.VerifBlockRange{BatchId: 1, Blocks: []*protocol.VerifRangeBlock{protocol.VerifC12NewRangeItem(blk.Header, cert, nil)}}
+		wire, _ := r.ToBytes()
+		dec := new(protocol.VerifBlockRange)
+		if err := dec.FromBytes(wire); err != nil || !dec.IsValid() {
+			t.Fatalf("setup: the range does not pass decoding and the IsValid gate: %v", err)
+		}
+		n2 := newNode(b)
+		g := newGossipNode(b)
+		pr, _ := g.newPeer("serving-peer")
+		ks := keystore.NewKeyStore(t.TempDir()+"/ks", keystore.StandardScryptN, keystore.StandardScryptP)
+		subs, _ := subscriptions.NewManager(t.TempDir())
+		fs := protocol.NewFastSync(g.h, log.New(), b.Chain, b.Ipfs, b.AppState, mapset.NewSet(), &snapshot.Manifest{Height: blk.Height(), Root: blk.Root()}, nil, b.Bus, b.Addr, ks, subs, n2.upgrader)
+		if _, err := fs.VerifC12PreConsuming(b.Head()); err != nil {
+			t.Fatalf("setup: preConsuming: %v", err)
+		}
+		if err := fs.VerifC12ValidateHeader(dec.Blocks[0]); err != nil {
+			t.Fatalf("setup: certified header refused: %v", err)
+		}
+		fs.VerifC12Defer(dec.Blocks[0], pr)
+		mustNotPanic(t, fmt.Sprintf("fastSync.applyDeferredBlocks(TxBloom of %d bytes)", n), func() { _, _ = fs.VerifC12ApplyDeferredBlocks() })
+		fs.VerifC12DropPreliminaries()
 	}
 }
